@@ -400,7 +400,7 @@ RELEVANT = {
     "C03": {"count", "budget", "evals", "counter", "invocations", "seed"},
     "C04": {"best", "observed"},
     "C05": {"control", "metaepoch"},
-    "C06": {"schedule", "active", "me", "gens", "control"},
+    "C06": {"schedule", "active", "me", "gens", "control", "hist"},
     "C07": {"structure", "levels", "id", "level", "parent", "startedAt", "children", "seed", "cls"},
     "C08": {"stage:LevelLimit", "active"},
     "C09": {"stage:FarEnough", "stage:NBC_FarEnough"},
